@@ -25,6 +25,8 @@ HDR = 'goldilocks_cubic_extension.hpp'
 
 # heads whose name does not describe the operand shape; value = sig actually implemented
 OVERRIDES = {
+    # the challenge variant: b is ONE extension element (b[0..2]) for all four elements, b_[3] its precomputed sums (proof of the '33' reading failed; body read)
+    'mul_batch(Goldilocks::Element *result, Goldilocks::Element *a, Goldilocks::Element *b, Goldilocks::Element b_[3])': '33c',
 }
 
 
